@@ -545,7 +545,8 @@ pub fn after_cancel(w: &mut World, rid: usize, ctx: CancelCtx) {
         for c in ctx.healthy_before {
             // at capacity the pool may drop the surplus connection (C15)
             let origin = w.conns[c].origin.clone();
-            let others_idle = w.conns.iter().filter(|x| x.id != c && x.origin == origin && x.alive() && x.is_open() && x.holders == 0).count();
+            // (an HTTP/2 connection registered with the pool occupies a slot of the idle list also while requests hold it)
+            let others_idle = w.conns.iter().filter(|x| x.id != c && x.origin == origin && x.alive() && x.is_open() && (x.holders == 0 || (x.h2 && x.in_pool))).count();
             if !w.conns[c].alive() && w.conns[c].open() && others_idle < w.cfg.max_idle_per_host {
                 let how = if w.reqs[rid].avail_at_issue.contains(&c) {
                     "popped-at-issue"
